@@ -2079,8 +2079,8 @@ def _canonical_bool_locals(fn, repo) -> bool:
     changed = False
     for d in [x for x in own_walk(fn) if isinstance(x, ast.Assign) and len(x.targets) == 1 and isinstance(x.targets[0], ast.Name)]:
         k = d.targets[0].id
-        if counts.get(k) != 1 or not isinstance(d.value, (ast.BoolOp, ast.Compare, ast.UnaryOp, ast.Call)) or not _surely_bool(d.value, repo):
-            continue
+        if counts.get(k) != 1 or not isinstance(d.value, ast.BoolOp) or not _surely_bool(d.value, repo):
+            continue        # (a single atom bound to a local is folded back by the temporaries rules; only compound decisions are written out)
         uses = [x for x in ast.walk(fn) if isinstance(x, ast.Name) and x.id == k and isinstance(x.ctx, ast.Load)]
         if not uses:
             continue
@@ -2098,8 +2098,7 @@ def _canonical_bool_locals(fn, repo) -> bool:
         roles = [role(u_) for u_ in uses]
         if None in roles:
             continue
-        if "return" not in roles and not isinstance(d.value, ast.BoolOp):
-            continue        # (a single atom bound to a flag and only tested: the fact copy of the engine follows it)
+
         holder = getattr(d, "_parent", None)
         blk = next((getattr(holder, fl) for fl in ("body", "orelse", "finalbody") if isinstance(getattr(holder, fl, None), list) and d in getattr(holder, fl)), None)
         if blk is None:
